@@ -263,7 +263,12 @@ size_t SocketTlsImpl::Send(char const *data, size_t size, Duration timeout)
   // timeout will be honored during waiting and BIO read/write
   remainingTime = timeout;
 
-  return Write(data, size);
+  auto sent = Write(data, size);
+  if((lastError == SSL_ERROR_WANT_WRITE) && SSL_is_init_finished(ssl.get())) {
+    // not everything sent within the timeout; a subsequent receive must not wait for writable first
+    lastError = SSL_ERROR_NONE;
+  }
+  return sent;
 }
 
 size_t SocketTlsImpl::SendSome(char const *data, size_t size)
